@@ -56,8 +56,19 @@ package snap
 //@ func cleanupNewRing
 //@   maypanic
 //@ func dedupeInnersOuters
-//@   trusted "ring assembly heuristic, only bounded stand-ins (C06)"
 //@   maypanic
+//@   loop i
+//@     invariant 0 <= i && i <= lenAll && lenAll == lenOuters + lenInners && lenOuters == len(outers) && lenInners == len(inners)
+//@     invariant !isNil(processedIndexes) && !isNil(indexesToDelete)
+//@     decreases lenAll - i
+//@   loop j#2
+//@     invariant 0 <= i && i < j && j <= lenAll && lenAll == lenOuters + lenInners && lenOuters == len(outers) && lenInners == len(inners)
+//@     invariant !isNil(processedIndexes) && !isNil(indexesToDelete)
+//@     decreases lenAll - j
+//@   loop p#2
+//@     invariant 0 <= i && i < lenAll && lenAll == lenOuters + lenInners && lenOuters == len(outers) && lenInners == len(inners)
+//@     invariant !isNil(processedIndexes) && !isNil(indexesToDelete)
+//@   ensures[C06] len(result0) <= len(outers) && len(result1) <= len(inners)
 //@ func outersToPolygons
 //@   loop i
 //@     invariant 0 <= i && i <= len(outers) && len(polygons) == len(outers)
@@ -68,8 +79,18 @@ package snap
 //@ func matchInnersToPolygons
 //@   trusted "ring assembly heuristic, only bounded stand-ins (C06)"
 //@   maypanic
+// reverseWindingOrderIfConfigured: verified (safety, termination); it changes the order of the vertices inside the
+// rings only: the number of polygons, of rings per polygon and of vertices per ring stay what they were.
 //@ func reverseWindingOrderIfConfigured
-//@   trusted "reverses every ring in place when configured: lengths and nesting unchanged"
+//@   modifies polygons
+//@   loop i as pi
+//@     invariant len(polygons) == old(len(polygons))
+//@     invariant forall(a Int, 0 <= a && a < len(polygons) ==> len(polygons[a]) == old(len(polygons[a])), trigger(polygons[a]))
+//@   loop j as pj
+//@     invariant len(polygons) == old(len(polygons)) && 0 <= pi + 1 && pi + 1 < len(polygons)
+//@     invariant forall(a Int, 0 <= a && a < len(polygons) ==> len(polygons[a]) == old(len(polygons[a])), trigger(polygons[a]))
+//@   ensures[C05,C06] len(polygons) == old(len(polygons))
+//@   ensures[C05,C06] forall(a Int, 0 <= a && a < len(polygons) ==> len(polygons[a]) == old(len(polygons[a])), trigger(polygons[a]))
 
 // C05 / C08 / C03: what addPointsAndSnap guarantees about the SHAPE of its result (which levels are present, none
 // with an empty list); the rings themselves come from the unverified ring assembly. It may panic (ring assembly,
@@ -204,7 +225,8 @@ package snap
 //@   ensures[C06] forall(k, 0, len(result), 0 <= result[k] && result[k] + len(find) <= len(corpus))
 // ringsAreEqual: never indexes out of range for a non-empty first ring (its own comment accepts a panic for an empty one).
 //@ func ringsAreEqual
-//@   requires len(ringI) >= 1
+//@   indexpanics
+//@   panics[C06] len(ringI) == 0 && len(ringJ) == 0
 //@   loop k
 //@     invariant 0 <= k && k <= ringLen && ringLen == len(ringI) && ringLen == len(ringJ) && 0 <= idx && idx < ringLen
 //@     decreases ringLen - k
